@@ -169,6 +169,7 @@ type Run struct {
 	mutexes       map[*Value]*mutexState
 	wgs           map[*Value]int64
 	onces         map[*Value]bool
+	pools         map[*Value][]Value
 	curFrame      *frame
 	stubs         map[string]bool
 	shadow        map[interface{}]*shadowCell
